@@ -284,7 +284,7 @@ func (e *effectsAnalysis) sharedChain(v ssa.Value, depth int) (bool, string) {
 	case *ssa.FieldAddr:
 		if e.isSharedPtr(a.X.Type()) && !isFresh(a.X) {
 			st := a.X.Type().Underlying().(*types.Pointer).Elem().Underlying().(*types.Struct)
-			return true, fmt.Sprintf("field %s of shared %s", st.Field(a.Field).Name(), types.TypeString(a.X.Type(), func(*types.Package) string { return "" }))
+			return true, fmt.Sprintf("field %s of shared %s", fname(st.Field(a.Field)), types.TypeString(a.X.Type(), func(*types.Package) string { return "" }))
 		}
 		return e.sharedChain(a.X, depth+1)
 	case *ssa.IndexAddr:
@@ -599,7 +599,7 @@ func checkEffects(p *Program, r *Report) {
 				break
 			}
 			if n, ok := ft.(*types.Named); ok && n.Obj().Pkg() == p.Main.Types && perCaller[n.Obj().Name()] {
-				bad = st.Field(i).Name() + " " + n.Obj().Name()
+				bad = fname(st.Field(i)) + " " + n.Obj().Name()
 			}
 		}
 		if bad != "" {
